@@ -105,6 +105,8 @@ var templateSrc = []struct {
 	{"clw", "l", "closure-assigns-under-shadowing-let", "(let ((x ?i)) (let ((f (lambda (a) (setq x (+ x a))))) (list (let ((x ?i+x+f&)) (list (funcall f ?i+x+f&) x)) x)))", 0},
 	{"cla", "l", "closure-passed-to-function-with-same-parameter-name", "(let () (defun NAME (f x) (funcall f x)) (let ((x ?i)) (NAME (lambda (a) (list a x)) ?i+x)))", 0},
 	{"clu", "i", "closure-returned-from-function", "(let () (defun NAME (n) (lambda (a) (+ a n))) (let ((n ?i)) (funcall (NAME ?i+n) ?i+n)))", 0},
+	{"cln", "i", "closure-outlives-the-call-that-made-its-binding", "(let () (defun NAME (n) (lambda (a) (+ a n))) (funcall (NAME ?i) ?i))", 1},
+	{"clg", "l", "closures-from-one-generator-keep-separate-state", "(let () (defun NAME (n) (let ((x n)) (lambda (a) (setq x (+ x a))))) (let ((f (NAME ?i)) (g (NAME ?i))) (list (funcall f ?i+f&+g&) (funcall g ?i+f&+g&) (funcall f ?i+f&+g&))))", 1},
 	{"ltf", "r", "let-lambda", "(let ((f (lambda (a) ?i+a*))) ?r+f&)", 2},
 	{"lmc", "r", "lambda-form-call", "((lambda (a b) ?a+a+b* ?r+a+b*) ?i ?i)", 2},
 	{"lmf", "r", "funcall-lambda", "(funcall (lambda (a b) ?r+a+b*) ?i ?i)", 0},
